@@ -327,14 +327,15 @@ def options(ctx, sg, lim):
     # numbers need not be one), and to the ratio
     seen = []
     mk = I.get_global('step_generators', 'make_exact')
-    I.on_call = lambda fn, args, kwargs, node, fr: seen.append(args[0]) if fn is mk and args else None
+    # (observed at the entry of the function itself: it may be reached through map(), a helper or a stored reference)
+    I.on_enter = lambda clo, args, kwargs: seen.append(args[0]) if clo is mk and args else None
     try:
         nom = Poly.sym('nom')
         ndarr.POSITIVE_ATOMS.add('nom')
         g = Min(base_step=b, step_ratio=r, num_steps=3, step_nom=nom, use_exact_steps=True)
         I.getattr(g, 'step_generator_function')(x, 'forward', 1, 2)
     finally:
-        I.on_call = None
+        I.on_enter = None
         ndarr.POSITIVE_ATOMS.discard('nom')
     got = sorted(repr(scalar(v)) for v in seen)
     want = sorted([repr(b * nom), repr(r)])
